@@ -499,6 +499,15 @@ fn build_abs(d: &AbsDfa, style: usize) -> Result<Automaton, String> {
     b.build().map_err(|e| format!("{:?}", e))
 }
 
+/// read-only queries made BEFORE an in-place operation: whatever they compute (or cache) must not survive it
+fn touch(a: &Automaton) {
+    let _ = a.pick_alphabet();
+    let _ = a.compile_successors();
+    let _ = a.combined_char_partition();
+    let _ = (a.num_states(), a.num_final_states());
+    let _ = a.edges().count();
+}
+
 fn letter_reps(d: &AbsDfa) -> Vec<u32> {
     let mut v = vec![];
     for &(lo, hi) in &d.letters {
@@ -548,6 +557,7 @@ fn dfa_records(d: &AbsDfa, style: usize, rng: &mut Rng, want_min: bool, want_c14
             let mut a2 = build_abs(d, style)?;
             apply_pre(&mut a1, pre_min);
             apply_pre(&mut a2, pre_min);
+            touch(&a2);
             a2.minimize();
             let db0 = dump_automaton(&a2, &[], &reps0);
             let da = dump_automaton(&a1, &[], &db0.reps);
@@ -581,6 +591,7 @@ fn dfa_records(d: &AbsDfa, style: usize, rng: &mut Rng, want_min: bool, want_c14
             let mut a2 = build_abs(d, style)?;
             apply_pre(&mut a1, pre_prune);
             apply_pre(&mut a2, pre_prune);
+            touch(&a2);
             a2.remove_unreachable_states();
             let db0 = dump_automaton(&a2, &[], &reps0);
             let da = dump_automaton(&a1, &[], &db0.reps);
@@ -773,11 +784,13 @@ pub fn drive_automata(a: &Args) {
             let a1 = mgr.compile(e);
             let mut a2 = mgr.compile(e);
             let mut a3 = mgr.compile(e);
+            touch(&a2);
             a2.minimize();
             if id % 2 == 0 {
                 // prune a minimized automaton (its initial state need not be state 0 any more)
                 a3.minimize();
                 let a1b = { let mut x = mgr.compile(e); x.minimize(); x };
+                touch(&a3);
                 a3.remove_unreachable_states();
                 let d3 = dump_automaton(&a3, &[], &[]);
                 let d1 = dump_automaton(&a1b, &[], &d3.reps);
@@ -789,6 +802,7 @@ pub fn drive_automata(a: &Args) {
                 let s2 = structure(&a2, &d2);
                 return Some((d0, d2, d1, d3, s1, s2, s3));
             }
+            touch(&a3);
             a3.remove_unreachable_states();
             let d2 = dump_automaton(&a2, &[], &[]);
             let d3 = dump_automaton(&a3, &[], &d2.reps);
